@@ -38,7 +38,13 @@ func c12Docs() map[string]string {
 		wb.WriteString("<div class=\"w\"><div><p>" + t2.W(24) + "</p></div></div>")
 	}
 	wb.WriteString("</body></html>")
-	return map[string]string{"min": min, "rich1": rich1, "rich2": rich2, "wrapped": wb.String()}
+	// OpenGraph namespaces declared by a prefix attribute, under different names in the two pages
+	t3 := &ora.Tok{}
+	pfx := func(decl, og string) string {
+		return "<html prefix=\"" + decl + "\"><head><title>" + ora.DefaultTitle + "</title><meta property=\"" + og + ":type\" content=\"article\"><meta property=\"" + og + ":title\" content=\"T\"><meta property=\"" + og + ":url\" content=\"http://example.com/x\"><meta property=\"" + og + ":image\" content=\"http://example.com/i.jpg\"></head><body><p>" + t3.W(24) + "</p><p>" + t3.W(22) + "</p></body></html>"
+	}
+	return map[string]string{"min": min, "rich1": rich1, "rich2": rich2, "wrapped": wb.String(),
+		"prefixA": pfx("og: http://ogp.me/ns# article: http://ogp.me/ns/article#", "og"), "prefixB": pfx("ogp: http://ogp.me/ns#", "ogp")}
 }
 
 type c12Thread struct {
@@ -72,6 +78,7 @@ func c12Scenarios() []c12Scenario {
 		{name: "S-c", threads: []c12Thread{{"min", "apply-shared", 0, 0, true}, {"min", "apply-shared", 0, 0, true}, {"min", "apply-own", 30, 1, false}}},
 		{name: "S-d", threads: []c12Thread{{"rich2", "apply-shared", 0, 0, true}, {"rich2", "reader", 0, 1, false}}},
 		{name: "S-e-log", threads: []c12Thread{{"min", "apply-shared", 30, 1, false}, {"min", "apply-own", 30, 0, false}}},
+		{name: "S-g-prefix", threads: []c12Thread{{"prefixA", "apply-own", 0, 0, true}, {"prefixB", "apply-own", 0, 0, true}}},
 		{name: "S-f-wrapped", threads: []c12Thread{{"wrapped", "apply-own", 0, 0, true}, {"wrapped", "apply-own", 0, 0, true}}},
 	}
 }
@@ -578,7 +585,7 @@ func init() {
 	eng.Register(&eng.Prop{
 		ID:        "C12",
 		DesignRef: "§5 C12",
-		Rule: "closed drivers with forced sharing: S-a two Apply calls on one shared tree with one shared *Options (minimal page; rich page with table, figure, embed, pager), S-b two different rich pages with shared Options, S-c three threads (S-a + a LogEverything/PageNumber call), S-d Apply(tree) || ApplyForReader(bytes), S-e two logging calls, S-f two calls on a page whose paragraphs each sit in their own wrapper and whose root carries a legacy xmlns namespace prefix; X: the S-a shape (two calls, shared tree, shared Options, the document's own page URL and algorithm) for every 16th (thorough: 8th) document of the cross corpus (documents of C02-C04, C06-C10, C13-C20), V-level. " +
+		Rule: "closed drivers with forced sharing: S-a two Apply calls on one shared tree with one shared *Options (minimal page; rich page with table, figure, embed, pager), S-b two different rich pages with shared Options, S-c three threads (S-a + a LogEverything/PageNumber call), S-d Apply(tree) || ApplyForReader(bytes), S-e two logging calls, S-f two calls on a page whose paragraphs each sit in their own wrapper and whose root carries a legacy xmlns namespace prefix, S-g two pages that declare the OpenGraph namespace through prefix attributes with different values; X: the S-a shape (two calls, shared tree, shared Options, the document's own page URL and algorithm) for every 16th (thorough: 8th) document of the cross corpus (documents of C02-C04, C06-C10, C13-C20), V-level. " +
 			"Each scenario is explored by a DFS over the cooperative scheduler's choice points: V-level (scheduling points only at visible operations: package variables ever written, writes to shared trees, lock operations) without preemption bound; F-level (every function entry, loop iteration, package-variable access and node write is a scheduling point) with preemption bound 1 (bound 2 for S-a-min in thorough; in quick the two rich scenarios are explored on every 4th of 48 shards). " +
 			"Oracle on every schedule: each thread's canonical result equals its solo result; no pair of conflicting package-variable accesses from different threads without a common lock; no write to a node of a shared input tree; shared Options and trees unchanged; no panic, deadlock or horizon overrun. Plus one free-running pass of the same bodies (X scenarios included) under the Go race detector. " +
 			"Non-trivial = shards whose executions include >= 1 preemption.",
